@@ -34,7 +34,11 @@ Arguments Fuel {A}.
 Definition is_ok {A} (r : out A) : bool := match r with Ok _ => true | _ => false end.
 
 (* ---- the decompressor oracle: do_block(cmp, in, size, out, outsize) ---- *)
-Inductive uresult := UErr (e : Z) | UOk (bytes : list N).  (* ret < 0 | ret = length bytes *)
+Inductive uresult :=
+| UErr (e : Z)                         (* ret < 0 *)
+| UOk (bytes : list N) (rest : list N).
+  (* ret = length bytes; [rest] = what out[ret .. outsize) holds afterwards: a codec may scribble
+     there (LZ4/zstd wild copies do) and data_reader.c exposes those bytes on damaged images *)
 
 (* ---- the file: sqfs_file_t.read_at of lib/sqfs/src/io/file.c (pread loop) ---- *)
 Definition len (l : list N) : N := N.of_nat (length l).
@@ -112,7 +116,7 @@ Definition load (limit b : N) : lres :=
         if compressed then
           match uncompress raw c10_meta_scratch_cap with
           | UErr e => LPost (Err e) [raw]
-          | UOk o =>
+          | UOk o _ =>
             if c10_meta_data_cap <? len o then LPost Crash [raw]  (* memcpy(m->data, m->scratch, ret) past data[] *)
             else LOk [raw] o size
           end
